@@ -1123,6 +1123,10 @@ func (ev *Env) builtinSpec(name string, argEs []Expr) (T, bool) {
 		return (&n).eval(argEs[0]), true
 	case "fresh":
 		a := arg(0)
+		if a.Sort == "Slice" {
+			// a slice without capacity shares no writable memory with anything
+			return T{fmt.Sprintf("(or (>= (s_arr %s) %s) (= (s_cap %s) 0))", a.S, ev.next0, a.S), "Bool", boolT}, true
+		}
 		return T{fmt.Sprintf("(>= %s %s)", ev.refOf(a), ev.next0), "Bool", boolT}, true
 	case "allocated":
 		a := arg(0)
@@ -1235,6 +1239,14 @@ func (ev *Env) builtinSpec(name string, argEs []Expr) (T, bool) {
 }
 
 func (fr *frame) iterAt(b *ssa.BasicBlock) *iterState {
+	// the innermost enclosing map-range loop
+	for l := fr.loopAt[b]; l != nil; l = l.Parent {
+		for _, in := range l.Header.Instrs {
+			if n, ok := in.(*ssa.Next); ok {
+				return fr.iters()[n.Iter]
+			}
+		}
+	}
 	for _, in := range b.Instrs {
 		if n, ok := in.(*ssa.Next); ok {
 			return fr.iters()[n.Iter]
